@@ -5,10 +5,10 @@ import Pkgcore.Model.C46
 namespace Pkgcore.C46.Spec
 open Pkgcore.C46
 
-/-- selected by the cleaning targets: with a target restriction the files its file-name patterns select, otherwise
-every file of the distdir -/
+/-- selected by the cleaning targets: with a target restriction the files its file-name patterns select — which
+requires that the restriction matches some package at all —, otherwise every file of the distdir -/
 def selectedByTargets (i : Input) (f : String) : Prop :=
-  f ∈ names i ∧ (i.opts.hasRestrict = true → f ∈ i.selected)
+  f ∈ names i ∧ (i.opts.hasRestrict = true → f ∈ i.selected ∧ ∃ p ∈ i.repo, p.targeted = true)
 
 /-- passes the `--modified` / `--size` filters: older than the time given, smaller than the size given -/
 def passesFilters (i : Input) (f : String) : Prop :=
